@@ -14,6 +14,7 @@ from checklib import *
 PROPS = {
     'C02': dict(kind='t1', units='C02', corr_quick=60, corr_thorough=4000),
     'C08': dict(kind='t1', units='C08', corr_quick=200, corr_thorough=10000),
+    'C09': dict(kind='t1', units='C09', corr_quick=200, corr_thorough=10000),
     'C10': dict(kind='t1', units='C10', corr_quick=300, corr_thorough=20000),
     'C12': dict(kind='t1', units='C12', corr_quick=300, corr_thorough=20000),
 }
